@@ -14,7 +14,8 @@ def run(tier, t0):
                    "division, on the dividend (MIN / -1 does not fit); (c) c14.remsign: the choice under which the remainder is "
                    "negated is built from the dividend's sign alone in the truncating flavours and from the divisor's sign alone "
                    "in the flooring flavours; (d) c14.remwidth: a remainder modulo an unsigned divisor of independent width is "
-                   "not reinterpreted as a signed integer of the divisor's width"),
+                   "not reinterpreted as a signed integer of the divisor's width; (e) c14.reminv: every flooring correction (quotient + 1, "
+                   "remainder := |d| - r) is gated by the remainder's non-zero test"),
         explanation=("structural necessary conditions of C14: a signed quotient or remainder that ignores an operand, and a "
                      "'none' report that ignores the divisor — or, for signed / signed division, the dividend, which alone "
                      "distinguishes MIN / -1 — are wrong for some input; whose sign the remainder takes is decided by shape (c), "
@@ -22,5 +23,6 @@ def run(tier, t0):
                      "|r| < |d| themselves are value relations and are not decided; forwarding and the div/rem projections are "
                      "decided under C15"),
         floors={"operations_checked_for_completeness": 40, "fallible_operations": 6, "signed_remainder_negations": 8,
-                "mixed_width_remainder_reinterpretations": 2},
-        extra=lambda f, rep, cfg: c14.run(f, rep, cfg))
+                "mixed_width_remainder_reinterpretations": 2,
+                "floor_corrections": 8},
+        extra=lambda f, rep, cfg: (c14.run(f, rep, cfg), c14.run_reminv(f, rep, cfg)))
